@@ -473,13 +473,19 @@ class Sess:
         if self.arena.read(addr, n) != src:
             self.fail("prop_fail", "compression modified its source")
         self.check_snaps(snaps, "LZ4_compress_fast_continue")
-        if self.orc:
-            if force_ext: self.ask("fext", sid, addr, n)
-            else: self.ask("cont", sid, addr, n, cap, acc)
-            self.cmp_model(sid, "LZ4_compress_forceExtDict" if force_ext else "LZ4_compress_fast_continue", r, out)
+        try:
+            # property oracles first (a violated property is reported as such even when the model disagrees too)
+            if r > 0:
+                self.dec[("f", sid)].maxblock = max(self.dec[("f", sid)].maxblock, n)
+                self.dec[("f", sid)].block(src, out, addr)
+        finally:
+            if self.orc:
+                if force_ext: self.ask("fext", sid, addr, n)
+                else: self.ask("cont", sid, addr, n, cap, acc)
+                if not self.res["fails"]:
+                    self.cmp_model(sid, "LZ4_compress_forceExtDict" if force_ext else "LZ4_compress_fast_continue", r, out)
         if r > 0:
-            self.dec[("f", sid)].maxblock = max(self.dec[("f", sid)].maxblock, n)
-            self.dec[("f", sid)].block(src, out, addr)
+            pass
         else:
             self.failed_state.add(("f", sid))
             if expect_ok:
@@ -525,18 +531,21 @@ class Sess:
         self.failed_state.discard(("f", sid))
         if r < 0 or r > max(cap, 0):
             self.fail("prop_fail", "one-shot compressor (%s) returned %d with capacity %d" % (kind, r, cap))
-        if self.orc:
-            self.ask(kind, sid, addr, n, cap, acc)
-            self.cmp_model(sid, {"fr": "LZ4_compress_fast_extState_fastReset", "ext": "LZ4_compress_fast_extState", "dsz": "LZ4_compress_destSize_extState"}[kind],
-                           r, out, consumed=consumed if kind == "dsz" else None)
         d = self.dec[("f", sid)]
         d.reset()
-        if r > 0:
-            if kind == "dsz" and not (0 <= consumed <= n):
-                self.fail("prop_fail", "destSize consumed %d of %d" % (consumed, n))
-            self.independent(src[:consumed], out, "fast one-shot " + kind)
-        elif cap >= bound(n) and kind != "dsz":
-            self.fail("prop_fail", "one-shot compressor (%s) failed with capacity %d >= bound" % (kind, cap))
+        try:
+            if r > 0:
+                if kind == "dsz" and not (0 <= consumed <= n):
+                    self.fail("prop_fail", "destSize consumed %d of %d" % (consumed, n))
+                self.independent(src[:consumed], out, "fast one-shot " + kind)
+            elif cap >= bound(n) and kind != "dsz":
+                self.fail("prop_fail", "one-shot compressor (%s) failed with capacity %d >= bound" % (kind, cap))
+        finally:
+            if self.orc:
+                self.ask(kind, sid, addr, n, cap, acc)
+                if not self.res["fails"]:
+                    self.cmp_model(sid, {"fr": "LZ4_compress_fast_extState_fastReset", "ext": "LZ4_compress_fast_extState", "dsz": "LZ4_compress_destSize_extState"}[kind],
+                                   r, out, consumed=consumed if kind == "dsz" else None)
         return r, out
     def independent(self, src, out, what):
         """a block that must decode on its own (no history)"""
@@ -1305,3 +1314,48 @@ def corpus_u16_cleared(S, rng):
     S.f_reset_fast(1); S.f_attach(1, 9)
     S.f_continue(1, a, 300, bound(300), 1, expect_ok=True)
     S.res["stats"]["corpus_u16_cleared"] += 1
+
+def scen_real2g(S, rng, fam, total=2200 << 20, blk=1 << 20):
+    """thorough only: a REAL stream of > 2^31 cumulative bytes (double-buffer geometry, 1 MB blocks) on the real
+    library alone; every block is decoded by the real decoder with the last 64 KB of the previous block.  The
+    internal indices cross 1 GB and 2 GB for real (LZ4_renormDictT / the 2 GB reload of LZ4_compress_HC_continue)."""
+    st = S.res["stats"]
+    bufs = [S.arena.alloc(blk), S.arena.alloc(blk)]
+    variants = [gens.data(rng, k, blk) for k in ("mixed", "text", "selfdict", "mixed")]
+    if fam == "f": S.f_new(0)
+    else: S.h_new(0, 2)
+    lib = S.lib
+    dst = Buf(bound(blk), fill=0)
+    out = Buf(blk, fill=0)
+    prev = b""
+    done = 0; i = 0; renorms = 0; lastcur = 0
+    while done < total:
+        a = bufs[i & 1]; data = variants[i % len(variants)]
+        S.arena.write(a, data)
+        if fam == "f":
+            r = lib.compress_fast_continue(S.fast[0].p, S.arena.ptr(a), dst.p, blk, dst.n, 1 + (i % 3))
+            cur = S.fstate(0)["cur"]
+            if cur < lastcur: renorms += 1
+            lastcur = cur
+        else:
+            r = lib.compress_HC_continue(S.hc[0].p, S.arena.ptr(a), dst.p, blk, dst.n)
+            cur = S.hstate(0)["dictLimit"]
+            if cur < lastcur: renorms += 1
+            lastcur = cur
+        if r <= 0:
+            S.fail("prop_fail", "long stream: compression of block %d failed with capacity = bound (ret %d)" % (i, r))
+        hist = prev[-K64:]
+        db = Buf(len(hist), data=hist)
+        d = lib.decompress_safe_usingDict(dst.p, out.p, r, blk, db.p, len(hist))
+        ok = d == blk and out.bytes(blk) == data
+        db.free()
+        if not ok:
+            S.fail("prop_fail", "long stream: block %d (cumulative %d bytes, index %d) does not decode with the previous 64 KB (ret %d)" % (i, done, cur, d))
+        prev = data
+        done += blk; i += 1
+        S.res["evals"] += 1
+    dst.free(); out.free()
+    st["real_stream_bytes_%s" % fam] += done
+    st["real_stream_index_resets_%s" % fam] += renorms
+    if renorms == 0:
+        S.fail("harness_error", "long stream: the internal index never renormalised (cumulative %d)" % done)
